@@ -26,10 +26,10 @@ def coq_sig(sg):
 
 
 def coq_cdef(cd):
-    kind = {'plain': 'KPlain', 'pedantic': 'KPedantic'}.get(cd['kind']) or \
-        '(KGeneric [' + '; '.join('%d%%nat' % t['id'] for t in cd['tparams']) + '])'
+    ids = '[' + '; '.join('%d%%nat' % t['id'] for t in cd['tparams']) + ']'
+    kind = {'plain': 'KPlain', 'pedantic': 'KPedantic', 'gensub': f'(kind_gensub {ids})'}.get(cd['kind']) or f'(KGeneric {ids})'
     init = 'None' if cd['init'] is None else f'(Some {coq_sig(cd["init"])})'
-    return f'{{| cd_kind := {kind}; cd_init := {init}; cd_methods := [' + '; '.join(coq_sig(m) for m in cd['methods']) + '] |}'
+    return f'{{| cd_kind := {kind}; cd_tparams := {ids}; cd_init := {init}; cd_methods := [' + '; '.join(coq_sig(m) for m in cd['methods']) + '] |}'
 
 
 def coq_world(w):
@@ -277,7 +277,7 @@ def gen_history_case(rng, max_steps):
             init = gen_sig(rng, rng.choice([tps, tps + call_tvs, []]), nmax=2, ret_none=1.0)
             init['ret'] = ['none']
             init['params'] = [strip_fwd(a) for a in init['params']]
-        classes.append({'kind': 'generic', 'tparams': tps, 'init': init, 'methods': methods})
+        classes.append({'kind': 'gensub' if (init is None and rng.random() < 0.2) else 'generic', 'tparams': tps, 'init': init, 'methods': methods})
     if rng.random() < 0.55:
         classes.append({'kind': 'pedantic', 'tparams': [], 'init': None,
                         'methods': [gen_sig(rng, call_tvs) for _ in range(rng.choice([1, 2]))]})
@@ -291,8 +291,8 @@ def gen_history_case(rng, max_steps):
     def new(k):
         cd = classes[k]
         slot = len(insts)
-        xs = [gen_x(rng) for _ in cd['tparams']] if cd['kind'] == 'generic' else []
-        if cd['kind'] == 'generic' and cd['tparams'][0]['contra']:
+        xs = [gen_x(rng) for _ in cd['tparams']] if cd['kind'] in ('generic', 'gensub') else []
+        if cd['kind'] in ('generic', 'gensub') and cd['tparams'][0]['contra']:
             xs = [['cls', rng.choice(G.LEAF_CLS)] for _ in xs]
         args = []
         if cd['init'] is not None:
@@ -300,11 +300,11 @@ def gen_history_case(rng, max_steps):
             args, _ = gen_call(rng, cd['init'], {})
         insts[slot] = (k, {t['id']: x for t, x in zip(cd['tparams'], xs)})
         steps.append(['new', slot, k, xs, args])
-    gen_idx = [k for k, c in enumerate(classes) if c['kind'] == 'generic']
+    gen_idx = [k for k, c in enumerate(classes) if c['kind'] in ('generic', 'gensub')]
     for _ in range(rng.choice([1, 2, 2, 3])):
         new(rng.choice(gen_idx))
     for k, c in enumerate(classes):
-        if c['kind'] != 'generic':
+        if c['kind'] not in ('generic', 'gensub'):
             new(k)
     n = rng.choice([max_steps // 2, max_steps, max_steps])
     while len(steps) < max(4, n):
@@ -396,7 +396,8 @@ def describe(c, r, k):
         if not news:
             return info
         cd = w['classes'][news[-1][2]]
-        info['class_kind'] = cd['kind']
+        info['class_kind'] = 'generic' if cd['kind'] == 'gensub' else cd['kind']
+        info['generic_by_inheritance'] = cd['kind'] == 'gensub'
         sg = cd['init'] if s[0] == 'new' else cd['methods'][s[2]]
         if sg is None:
             return info
